@@ -2,33 +2,14 @@
    The scripts are written to go through both on the current code (a declared bound equal to 0 is dropped by
    `min_val or lowest` / `if converter.min_val and ...` / `if max_len and ...`) and on the repaired code: the
    boolean `*_ignored` flags of Model/C08Spec.v are computed from the translated code itself. *)
-Require Import PonyV.Base.PyBase PonyV.Model.C08Base PonyV.Gen.C08Conv PonyV.Model.C08Spec.
+Require Import PonyV.Base.PyBase PonyV.Model.C08Base PonyV.Gen.C08Conv PonyV.Model.C08Spec PonyV.Proofs.C08IntInit.
 From Coq Require Import ZifyBool.
 Open Scope Z_scope.
 
-Ltac break_if :=
-  match goal with
-  | |- context [if ?c then _ else _] => destruct c eqn:?
+Ltac break_if_in H N :=
+  match type of H with
+  | context [if ?c then _ else _] => destruct c eqn:N
   end.
-Ltac red1 := cbn [type_lo type_hi eff_size is_uns d_size d_unsigned d_min d_max pick gtb_opt negb andb orb size_okb
-                  ic_min ic_max ic_size ic_unsigned ge_opt le_opt].
-Ltac fin := try reflexivity; try (exfalso; unfold size_okb in *; lia); try (repeat f_equal; lia).
-
-(* ------------------------------------------------------------------------------------------------ IntConverter.init *)
-
-(* the translated init is the compact closed form, with zb = what the translated code does on a zero bound *)
-Lemma int_init_eq uint64 d : init_of uint64 d = int_init_spec int_zero_bound_ignored uint64 d.
-Proof.
-  destruct d as [s un mn mx].
-  unfold init_of, int_init_spec, int_init.
-  let v := eval vm_compute in int_zero_bound_ignored in change int_zero_bound_ignored with v.
-  red1.
-  destruct s as [s|].
-  - destruct un as [[|]|], mn as [m|], mx as [M|], uint64; red1;
-      repeat (break_if; red1); fin.
-  - destruct un as [[|]|], mn as [m|], mx as [M|], uint64; red1;
-      repeat (break_if; red1); fin.
-Qed.
 
 Lemma size_okb_iff s : size_okb s = true <-> size_ok s.
 Proof. unfold size_okb, size_ok. lia. Qed.
@@ -39,53 +20,26 @@ Proof.
   destruct d as [s un mn mx]. unfold int_init_spec, decl_ok. red1.
   split.
   - intros [c H].
-    destruct s as [s|].
-    + destruct (size_okb s) eqn:Hs; cbn [negb] in H; [|discriminate].
-      apply size_okb_iff in Hs.
-      destruct ((s =? 64) && match un with Some true => true | _ => false end && negb uint64) eqn:H64; [discriminate|].
-      repeat split; [exact Hs | intros [E [U1 U2]]; injection E as ->; rewrite U1, U2 in H64; discriminate | |].
-      * destruct mn as [m|]; [|exact I]. red1.
-        destruct (gtb_opt mx _) in H; [discriminate|]. red1 in H. break_if; [discriminate|]. lia.
-      * destruct mx as [M|]; [|exact I]. red1. red1 in H. break_if; [discriminate|]. lia.
-    + repeat split; [intros [E _]; discriminate | |].
-      * destruct mn as [m|]; [|exact I]. destruct un; red1; [|exact I].
-        destruct (gtb_opt mx _) in H; [discriminate|]. red1 in H. break_if; [discriminate|]. lia.
-      * destruct mx as [M|]; [|exact I]. destruct un; red1; [|exact I]. red1 in H. break_if; [discriminate|]. lia.
+    break_if_in H C1; [discriminate|]. break_if_in H C2; [discriminate|].
+    break_if_in H C3; [discriminate|]. break_if_in H C4; [discriminate|]. clear H.
+    destruct s as [s|], un as [[|]|], mn as [m|], mx as [M|]; red1; red1 in C1; red1 in C2; red1 in C3; red1 in C4;
+      repeat split; try exact I; try lia;
+      try (apply size_okb_iff; destruct (size_okb s); [reflexivity | discriminate]);
+      try (intros [E [U1 U2]];
+           first [ discriminate E | discriminate U1
+                 | injection E as E; subst s uint64; vm_compute in C2; discriminate C2 ]).
   - intros (Hs & H64 & Hlo & Hhi).
-    destruct s as [s|].
-    + apply size_okb_iff in Hs. rewrite Hs. cbn [negb].
-      destruct ((s =? 64) && match un with Some true => true | _ => false end && negb uint64) eqn:E64.
-      { exfalso. apply H64. destruct un as [[|]|]; cbn in E64; try lia. destruct uint64; cbn in E64; try lia.
-        repeat split. f_equal. lia. }
-      destruct mx as [M|], mn as [m|]; red1; red1 in Hlo; red1 in Hhi;
-        repeat (break_if; red1); try (exfalso; lia); eexists; reflexivity.
-    + destruct un as [u|]; destruct mx as [M|], mn as [m|]; red1; red1 in Hlo; red1 in Hhi;
-        repeat (break_if; red1); try (exfalso; lia); eexists; reflexivity.
+    destruct s as [s|], un as [[|]|], mn as [m|], mx as [M|], uint64;
+      unfold is_uns, type_lo, type_hi, eff_size in *;
+      cbn [d_size d_unsigned d_min d_max gtb_opt negb andb orb] in *;
+      try (apply size_okb_iff in Hs; rewrite Hs; cbn [negb]);
+      repeat (break_if; cbn [negb andb orb]);
+      try (eexists; reflexivity); try (exfalso; lia);
+      try (exfalso; apply H64; repeat split; f_equal; lia).
 Qed.
 
 Lemma int_decl_ok_iff uint64 d : (exists c, init_of uint64 d = Ok c) <-> decl_ok uint64 d.
 Proof. rewrite int_init_eq. apply int_spec_ok_iff. Qed.
-
-(* error class of a refused declaration: TypeError for a bad size / unsupported unsigned 64, else ValueError for a
-   declared bound outside the type's range *)
-Lemma int_decl_err_class uint64 d cls : init_of uint64 d = Err cls ->
-  (cls = TypeError /\ (match d_size d with Some s => ~ size_ok s | None => False end
-                       \/ (d_size d = Some 64 /\ is_uns d = true /\ uint64 = false)))
-  \/ (cls = ValueError /\ ~ decl_ok uint64 d).
-Proof.
-  intros H. assert (Hn : ~ decl_ok uint64 d).
-  { intros Hok. apply int_decl_ok_iff in Hok. destruct Hok as [c Hc]. congruence. }
-  rewrite int_init_eq in H. unfold int_init_spec in H.
-  destruct d as [s un mn mx]; red1; red1 in H.
-  destruct s as [s|].
-  - destruct (size_okb s) eqn:Hs; cbn [negb] in H.
-    + destruct ((s =? 64) && match un with Some true => true | _ => false end && negb uint64) eqn:E64.
-      * injection H as <-. left. split; [reflexivity|]. right.
-        destruct un as [[|]|]; cbn in E64; try lia. destruct uint64; cbn in E64; try lia. repeat split. f_equal. lia.
-      * right. split; [|exact Hn]. repeat (break_if; try discriminate) ; congruence.
-    + injection H as <-. left. split; [reflexivity|]. left. rewrite <- size_okb_iff. congruence.
-  - right. split; [|exact Hn]. revert H. repeat (break_if; try discriminate); congruence.
-Qed.
 
 (* ------------------------------------------------------------------------------------------ IntConverter.validate *)
 
@@ -109,25 +63,19 @@ Lemma int_spec_bounds zb uint64 d c v :
   int_init_spec zb uint64 d = Ok c -> (zb = true -> ~ zero_bound d) ->
   (ge_opt (ic_min c) v /\ le_opt (ic_max c) v <-> in_bounds d v).
 Proof.
-  destruct d as [s un mn mx]. unfold int_init_spec, in_bounds, zero_bound. red1. intros H Hz.
-  destruct (match s with Some s0 => negb (size_okb s0) | None => false end); [discriminate|].
-  destruct (match s with Some s0 => (s0 =? 64) && match un with Some true => true | _ => false end && negb uint64 | None => false end);
-    [discriminate|].
-  destruct (gtb_opt mx _) eqn:G1; [discriminate|].
-  destruct (gtb_opt _ mn) eqn:G2; [discriminate|].
-  injection H as <-. red1.
-  set (lo := match match s with Some s0 => Some s0 | None => match un with Some _ => Some 32 | None => None end end with
-             | Some s0 => Some (if match un with Some true => true | _ => false end then 0 else - 2 ^ (s0 - 1)) | None => None end) in *.
-  set (hi := match match s with Some s0 => Some s0 | None => match un with Some _ => Some 32 | None => None end end with
-             | Some s0 => Some (if match un with Some true => true | _ => false end then 2 ^ s0 - 1 else 2 ^ (s0 - 1) - 1) | None => None end) in *.
-  clearbody lo hi.
+  unfold int_init_spec. intros H Hz.
+  break_if_in H C1; [discriminate|]. break_if_in H C2; [discriminate|].
+  break_if_in H C3; [discriminate|]. break_if_in H C4; [discriminate|].
+  injection H as H. subst c. clear C1 C2. unfold in_bounds, zero_bound in *. red1.
+  destruct d as [s un mn mx]. red1. red1 in C3. red1 in C4.
+  set (lo := type_lo _) in *. set (hi := type_hi _) in *. clearbody lo hi.
   destruct zb.
-  - specialize (Hz eq_refl).
-    destruct mn as [m|], mx as [M|], lo as [l|], hi as [h|]; red1; red1 in G1; red1 in G2;
+  - specialize (Hz eq_refl). red1 in Hz.
+    destruct mn as [m|], mx as [M|], lo as [l|], hi as [h|]; red1; red1 in C3; red1 in C4;
       repeat (break_if; red1); try lia;
       try (exfalso; apply Hz; first [ right; f_equal; lia | left; split; [f_equal; lia | congruence] ]);
       try (assert (l = 0) by (destruct (Z.eq_dec l 0); [assumption | exfalso; apply Hz; left; split; [f_equal; lia | congruence]]); lia).
-  - destruct mn as [m|], mx as [M|], lo as [l|], hi as [h|]; red1; red1 in G1; red1 in G2; lia.
+  - destruct mn as [m|], mx as [M|], lo as [l|], hi as [h|]; red1; red1 in C3; red1 in C4; lia.
 Qed.
 
 Theorem int_accept_except_known uint64 d c v :
@@ -160,18 +108,18 @@ Definition decl_min0 := mk_int_decl None (Some false) (Some 0) None.     (* Opti
 Definition decl_max0 := mk_int_decl None (Some false) None (Some 0).     (* Optional(int, max=0) *)
 
 Lemma decl_min0_ok : decl_ok true decl_min0.
-Proof. unfold decl_ok, decl_min0; cbn [d_size d_unsigned d_min d_max type_lo type_hi eff_size is_uns]. repeat split; try lia. intros [E _]; discriminate. Qed.
+Proof. unfold decl_ok, decl_min0; cbn [d_size d_unsigned d_min d_max type_lo type_hi eff_size is_uns]. repeat split; try lia; try (intros [E _]; discriminate). Qed.
 Lemma decl_max0_ok : decl_ok true decl_max0.
-Proof. unfold decl_ok, decl_max0; cbn [d_size d_unsigned d_min d_max type_lo type_hi eff_size is_uns]. repeat split; try lia. intros [E _]; discriminate. Qed.
+Proof. unfold decl_ok, decl_max0; cbn [d_size d_unsigned d_min d_max type_lo type_hi eff_size is_uns]. repeat split; try lia; try (intros [E _]; discriminate). Qed.
 
 Theorem int_zero_bound_refuted :
   int_zero_bound_ignored = true ->
   exists d v, decl_ok true d /\ accepts_int true d v = true /\ ~ in_bounds d v.
 Proof.
   unfold int_zero_bound_ignored. intros H. apply orb_true_iff in H. destruct H as [H|H].
-  - exists decl_min0, (-5). repeat split; [apply decl_min0_ok | exact H |].
+  - exists decl_min0, (-5). split; [apply decl_min0_ok | split; [exact H |]].
     unfold in_bounds, decl_min0; cbn [d_min ge_opt]. lia.
-  - exists decl_max0, 5. repeat split; [apply decl_max0_ok | exact H |].
+  - exists decl_max0, 5. split; [apply decl_max0_ok | split; [exact H |]].
     unfold in_bounds, decl_max0; cbn [d_max le_opt]. lia.
 Qed.
 
@@ -219,9 +167,11 @@ Theorem real_zero_bound_refuted :
   exists mn mx v, v <> NNan /\ not_nan_opt mn /\ not_nan_opt mx /\ accepts_real mn mx v = true /\ ~ num_in_bounds mn mx v.
 Proof.
   unfold real_zero_bound_ignored. intros H. apply orb_true_iff in H. destruct H as [H|H].
-  - exists (Some (NFin 0 1)), None, (NFin (-1) 1). repeat split; try exact I; try exact H; try discriminate.
+  - exists (Some (NFin 0 1)), None, (NFin (-1) 1).
+    split; [discriminate|]. split; [exact I|]. split; [exact I|]. split; [exact H|].
     unfold num_in_bounds, num_ge_opt, num_le. lia.
-  - exists None, (Some (NFin 0 1)), (NFin 1 1). repeat split; try exact I; try exact H; try discriminate.
+  - exists None, (Some (NFin 0 1)), (NFin 1 1).
+    split; [discriminate|]. split; [exact I|]. split; [exact I|]. split; [exact H|].
     unfold num_in_bounds, num_le_opt, num_le. lia.
 Qed.
 
@@ -229,8 +179,8 @@ Qed.
 Lemma nan_not_in_bounds mn mx : (mn <> None \/ mx <> None) -> ~ num_in_bounds mn mx NNan.
 Proof.
   unfold num_in_bounds, num_ge_opt, num_le_opt, num_le. intros [H|H] [A B].
-  - destruct mn as [[| |]|]; try contradiction. congruence.
-  - destruct mx as [[|[|]|]|]; try contradiction. congruence.
+  - destruct mn as [m|]; [|congruence]. destruct m as [|[|]|]; exact A.
+  - destruct mx as [m|]; [|congruence]. destruct m as [|[|]|]; exact B.
 Qed.
 
 Definition real_nan_accepted : bool := accepts_real (Some (NFin 1 1)) (Some (NFin 2 1)) NNan.
@@ -239,7 +189,8 @@ Theorem real_nan_refuted :
   real_nan_accepted = true ->
   exists mn mx, not_nan_opt mn /\ not_nan_opt mx /\ accepts_real mn mx NNan = true /\ ~ num_in_bounds mn mx NNan.
 Proof.
-  intros H. exists (Some (NFin 1 1)), (Some (NFin 2 1)). repeat split; try exact I; try exact H.
+  intros H. exists (Some (NFin 1 1)), (Some (NFin 2 1)).
+  split; [exact I|]. split; [exact I|]. split; [exact H|].
   apply nan_not_in_bounds. left. discriminate.
 Qed.
 
@@ -259,10 +210,10 @@ Proof.
 Qed.
 
 Theorem dec_reject mn mx v : dec_validate mn mx v <> Ok v -> dec_validate mn mx v = Err ValueError.
-Proof. unfold dec_validate. destruct mn, mx; repeat break_if; congruence. Qed.
+Proof. unfold dec_validate. destruct mn, mx; repeat break_if; intros H; first [reflexivity | congruence]. Qed.
 
 Theorem real_reject mn mx v : real_validate mn mx v <> Ok v -> real_validate mn mx v = Err ValueError.
-Proof. unfold real_validate. destruct mn, mx; repeat break_if; congruence. Qed.
+Proof. unfold real_validate. destruct mn, mx; repeat break_if; intros H; first [reflexivity | congruence]. Qed.
 
 (* ------------------------------------------------------------------------------------------------ StrConverter.validate *)
 
@@ -314,6 +265,10 @@ Qed.
 Theorem str_validate_value a ml s r : str_validate a ml s = Ok r -> r = str_norm a s.
 Proof. unfold str_validate, str_norm. destruct a, ml; repeat break_if; congruence. Qed.
 
+(* the whitespace set is confined to [9, 12288]: the correspondence run compares that whole range with CPython exhaustively *)
+Lemma is_space_bounded c : is_space c = true -> 9 <= c <= 12288.
+Proof. unfold is_space. lia. Qed.
+
 (* str.strip(): the result is the input without a maximal all-whitespace prefix and suffix *)
 Lemma lstrip_decomp s : exists a, s = a ++ lstrip s /\ forallb is_space a = true.
 Proof.
@@ -356,19 +311,11 @@ Proof.
   - rewrite Ea at 1. f_equal. rewrite <- rev_app_distr, <- Eb, rev_involutive. reflexivity.
   - exact Sa.
   - rewrite forallb_rev. exact Sb.
-  - pose proof (lstrip_head s) as Hh. pose proof (lstrip_head (rev (lstrip s))) as Ht.
-    set (t := lstrip s) in *. set (u := lstrip (rev t)) in *.
-    destruct t as [|c t'] eqn:Et.
-    + cbn in Eb. destruct b; cbn in Eb; [subst u|].
-      * destruct u; [exact I | discriminate].
-      * discriminate.
-    + (* t = c :: t', c not a space; rev t = b ++ u *)
-      assert (E : rev u ++ rev b = c :: t') by (rewrite <- rev_app_distr, <- Eb, rev_involutive; reflexivity).
-      destruct (rev u) as [|y ru] eqn:Eru.
-      * (* u empty: then rev b = c :: t', so c in b is a space: contradiction *)
-        cbn in E. assert (Hin : In c b) by (apply in_rev; rewrite E; left; reflexivity).
-        rewrite forallb_forall in Sb. rewrite (Sb _ Hin) in Hh. discriminate.
-      * cbn in E. injection E as -> _. exact Hh.
+  - pose proof (lstrip_head s) as Hh.
+    remember (lstrip s) as t eqn:Et. remember (lstrip (rev t)) as u eqn:Eu.
+    assert (E : rev u ++ rev b = t) by (rewrite <- rev_app_distr, <- Eb, rev_involutive; reflexivity).
+    destruct (rev u) as [|y ru] eqn:Eru; [exact I|].
+    cbn in E. rewrite <- E in Hh. exact Hh.
   - rewrite rev_involutive. exact (lstrip_head (rev (lstrip s))).
 Qed.
 
@@ -395,19 +342,20 @@ Section Attr.
     - destruct (conv v) as [v'|c] eqn:Ec.
       + destruct py_check as [chk|].
         * destruct (chk v') eqn:Ek; split.
-          -- intros H; injection H as <-. right. exists v, v'. auto.
+          -- intros H; injection H as H; subst. right. exists v, v'. auto.
           -- intros [[H _]|(v0 & v1 & E0 & E1 & E2 & E3)]; [discriminate|]. congruence.
           -- discriminate.
           -- intros [[H _]|(v0 & v1 & E0 & E1 & E2 & E3)]; [discriminate|]. congruence.
         * split.
-          -- intros H; injection H as <-. right. exists v, v'. auto.
+          -- intros H; injection H as H; subst. right. exists v, v'. auto.
           -- intros [[H _]|(v0 & v1 & E0 & E1 & E2 & E3)]; [discriminate|]. congruence.
       + split; [discriminate|]. intros [[H _]|(v0 & v1 & E0 & E1 & _)]; [discriminate|]. congruence.
-    - destruct nullable as [[|]|]; cbn; split; try discriminate.
-      + intros H; injection H as <-. left. auto.
-      + intros _. reflexivity.
-      + intros [(_ & H & _)|(v0 & v1 & E0 & _)]; discriminate.
-      + intros [(_ & H & _)|(v0 & v1 & E0 & _)]; discriminate.
+    - destruct nullable as [[|]|]; cbn.
+      + split.
+        * intros H; injection H as H; subst r. left. auto.
+        * intros [(_ & _ & E)|(v0 & v1 & E0 & _)]; [subst r; reflexivity | discriminate].
+      + split; [discriminate|]. intros [(_ & H & _)|(v0 & v1 & E0 & _)]; discriminate.
+      + split; [discriminate|]. intros [(_ & H & _)|(v0 & v1 & E0 & _)]; discriminate.
   Qed.
 
   (* Required attribute without auto/volatile/sql_default: accepted exactly when the value is not None, the converter
@@ -423,11 +371,11 @@ Section Attr.
         * destruct (chk v') eqn:Ek; [destruct (is_empty v') eqn:Ee|]; split;
             try discriminate;
             try (intros (v0 & v1 & E0 & E1 & E2 & E3 & E4); congruence).
-          intros H; injection H as <-. exists v, v'. auto.
+          intros H; injection H as H; subst. exists v, v'. auto.
         * destruct (is_empty v') eqn:Ee; split;
             try discriminate;
             try (intros (v0 & v1 & E0 & E1 & E2 & E3 & E4); congruence).
-          intros H; injection H as <-. exists v, v'. auto.
+          intros H; injection H as H; subst. exists v, v'. auto.
       + split; [discriminate|]. intros (v0 & v1 & E0 & E1 & _). congruence.
     - destruct nullable as [[|]|]; cbn; split; try discriminate; intros (v0 & v1 & E0 & _); discriminate.
   Qed.
@@ -440,9 +388,9 @@ Section Attr.
     unfold required_validate, attribute_validate, attr_none, req_validate.
     destruct val as [v|].
     - destruct (conv v) as [v'|c'] eqn:Ec.
-      + destruct py_check as [chk|]; [destruct (chk v')|]; try destruct (is_empty v'); intros H; try discriminate; injection H as <-; left; reflexivity.
-      + intros H; injection H as <-. right. exists v. auto.
-    - destruct nullable as [[|]|]; cbn; intros H; try discriminate; injection H as <-; left; reflexivity.
+      + destruct py_check as [chk|]; [destruct (chk v')|]; try destruct (is_empty v'); intros H; try discriminate; injection H as H; subst; left; reflexivity.
+      + intros H; injection H as H; subst. right. exists v. auto.
+    - destruct nullable as [[|]|]; cbn; intros H; try discriminate; injection H as H; subst; left; reflexivity.
   Qed.
 
   (* with auto / volatile / sql_default a Required attribute lets None through (the database supplies the value) *)
@@ -463,9 +411,9 @@ Proof.
   intros Hc Hz. rewrite required_accepts. split.
   - intros (v & v' & E0 & E1 & E2 & _ & E4).
     destruct (int_validate_cases (ic_min c) (ic_max c) v) as [[E H]|[E H]]; rewrite E in E1; [|discriminate].
-    injection E1 as <-. exists v. repeat split; try assumption.
+    injection E1 as E1. subst v'. exists v. split; [assumption | split; [| split; assumption]].
     apply (int_accept_except_known _ _ _ _ Hc Hz). exact E.
-  - intros (v & E0 & E1 & E2 & E3). exists v, v. repeat split; try assumption.
+  - intros (v & E0 & E1 & E2 & E3). exists v, v. split; [assumption | split; [| split; [assumption | split; [reflexivity | assumption]]]].
     apply (int_accept_except_known _ _ _ _ Hc Hz). exact E1.
 Qed.
 
